@@ -30,7 +30,51 @@ def run_panel(job):
     true = np.diag(dense, k)
     stats = {"panel_calls": 0, "panel_configs": 1}
     viol = None
-    if cfg.get("exact"):
+    if cfg.get("via") == "dispatch":
+        import cola
+        from cola.linalg import Auto, Hutch
+
+        def estimate(key, tol=0.002):
+            kw = dict(tol=tol, max_iters=mi, rand=rand, key=key)
+            alg = Auto(**kw) if cfg.get("alg") == "Auto" else Hutch(**kw)
+            stats["panel_calls"] += 1
+            if cfg["what"] == "trace":
+                return np.asarray(cola.linalg.trace(A, alg)).reshape(1)
+            return np.asarray(cola.linalg.diag(A, k, alg))
+
+        if cfg["what"] == "trace":
+            true = np.asarray(np.trace(dense)).reshape(1)
+        stats["panel_structured_configs"] = 1
+        if cfg.get("exact"):
+            for key in range(8):
+                est = estimate(key)
+                if est.shape != true.shape or not np.allclose(est, true, rtol=1e-11, atol=0):
+                    viol = {"what": "Rademacher Hutchinson estimate (through cola.linalg.%s on a structured operator) of a "
+                                    "diagonal operator is not exact" % cfg["what"], "structure": cfg["name"], "key": key,
+                            "max_err": float(np.max(np.abs(est - true))) if est.shape == true.shape else None}
+                    break
+        else:
+            ests = []
+            for key in range(K):
+                est = estimate(key)
+                if est.shape != true.shape:
+                    viol = {"what": "estimate has wrong length", "shape": list(est.shape), "expected": list(true.shape)}
+                    break
+                ests.append(est)
+            if viol is None:
+                E = np.stack(ests)
+                mean, s = E.mean(0), E.std(0, ddof=1)
+                err = np.abs(mean - true)
+                bound = T * s / np.sqrt(K) + 1e-9 * (1 + np.abs(true))
+                bad = np.nonzero(err > bound)[0]
+                stats["panel_max_z"] = float(np.max(err / np.maximum(s / np.sqrt(K), 1e-300)))
+                if len(bad):
+                    i = int(bad[0])
+                    viol = {"what": "mean over keys of cola.linalg.%s(A, Hutch(key)) deviates from the true value by more than "
+                                    "%g standard errors" % (cfg["what"], T), "structure": cfg["name"], "coordinate": i,
+                            "mean": complex(mean[i]).real, "true": complex(true[i]).real, "stderr": float(s[i] / np.sqrt(K)),
+                            "z": float(err[i] / max(s[i] / np.sqrt(K), 1e-300))}
+    elif cfg.get("exact"):
         for key in range(8):
             est, _ = hutchinson_diag_estimate(A, k=0, tol=0.002, max_iters=mi, rand="rademacher", key=key)
             stats["panel_calls"] += 1
